@@ -106,6 +106,83 @@ def extract_process_dependent():
     return rows
 
 
+SET_ITER_FILES = ("_public.py", "_inline.py")
+_SET_METHODS = ("union", "intersection", "difference", "symmetric_difference")
+
+
+def extract_set_iterations():
+    """Every place in `_public.py` / `_inline.py` (build, inline and what an inlined model goes through) where an
+    ORDER is taken from a set: a `for` / comprehension over, or list()/tuple()/str.join()/`*`-splat of, a set
+    literal / set comprehension / `set(...)` / `frozenset(...)` / `a - b`, `a | b`, `a & b`, `a ^ b` with a set or a
+    dict view (`.keys()`, `.items()`) on one side / `.union(...)` etc. / a local assigned from one of those.
+    `sorted(...)` of a set is not a site. Rows: [file, qualified function, source of the iterable]."""
+    rows = []
+    for fname in SET_ITER_FILES:
+        path = REPO / "src" / "spox" / fname
+        try:
+            mod = ast.parse(path.read_text())
+        except Exception as e:  # noqa: BLE001
+            rows.append([fname, "<module>", "<unreadable:" + type(e).__name__ + ">"])
+            continue
+
+        def scan(fn_node, qual):
+            setvars = set()
+
+            def view(e):
+                return isinstance(e, ast.Call) and isinstance(e.func, ast.Attribute) and e.func.attr in ("keys", "items")
+
+            def setlike(e):
+                if isinstance(e, (ast.Set, ast.SetComp)):
+                    return True
+                if isinstance(e, ast.NamedExpr):
+                    return setlike(e.value)
+                if isinstance(e, ast.Name):
+                    return e.id in setvars
+                if isinstance(e, ast.Call):
+                    nm = dotted(e.func) or ""
+                    if nm in ("set", "frozenset"):
+                        return True
+                    if isinstance(e.func, ast.Attribute) and e.func.attr in _SET_METHODS:
+                        return True
+                    return False
+                if isinstance(e, ast.BinOp) and isinstance(e.op, (ast.Sub, ast.BitOr, ast.BitAnd, ast.BitXor)):
+                    return setlike(e.left) or setlike(e.right) or view(e.left) or view(e.right)
+                return False
+
+            own = [n for n in ast.walk(fn_node)]
+            for _ in range(2):  # locals assigned from set expressions (two passes: chains)
+                for n in own:
+                    if isinstance(n, ast.Assign) and setlike(n.value):
+                        setvars.update(t.id for t in n.targets if isinstance(t, ast.Name))
+                    if isinstance(n, ast.AnnAssign) and n.value is not None and setlike(n.value) and isinstance(n.target, ast.Name):
+                        setvars.add(n.target.id)
+                    if isinstance(n, ast.NamedExpr) and setlike(n.value):
+                        setvars.add(n.target.id)
+            for n in own:
+                its = []
+                if isinstance(n, (ast.For, ast.AsyncFor)):
+                    its.append(n.iter)
+                if isinstance(n, (ast.ListComp, ast.GeneratorExp, ast.DictComp)):
+                    its += [g.iter for g in n.generators]
+                if isinstance(n, ast.Call):
+                    nm = dotted(n.func) or ""
+                    if nm in ("list", "tuple", "enumerate", "iter", "next", "zip") or nm.endswith(".join") or nm.endswith(".extend"):
+                        its += list(n.args)
+                    its += [a.value for a in n.args if isinstance(a, ast.Starred)]
+                for it in its:
+                    if setlike(it):
+                        rows.append([fname, qual, ast.unparse(it)])
+
+        for top in mod.body:
+            if isinstance(top, (ast.FunctionDef, ast.AsyncFunctionDef)):
+                scan(top, top.name)
+            elif isinstance(top, ast.ClassDef):
+                for m in top.body:
+                    if isinstance(m, (ast.FunctionDef, ast.AsyncFunctionDef)):
+                        scan(m, top.name + "." + m.name)
+    return sorted(map(list, {tuple(r) for r in rows}))
+
+
 def _func(mod, qual):
     cur, node = mod.body, None
     for part in qual.split("."):
@@ -223,6 +300,10 @@ def generate() -> dict:
         pdep = extract_process_dependent()
     except Exception as e:  # noqa: BLE001
         pdep = [["<unreadable>", type(e).__name__, "?"]]
+    try:
+        setit = extract_set_iterations()
+    except Exception as e:  # noqa: BLE001
+        setit = [["<unreadable>", type(e).__name__, "?"]]
     text = "\n".join([
         HEADER.format(src="src/spox/_*.py", tool="translator/front_facts.py"),
         "namespace Generated.FrontFacts\n",
@@ -234,10 +315,12 @@ def generate() -> dict:
             ["(" + lean_str(k) + ", " + lean_bool(v) + ")" for k, v in conv.items()]) + "\n",
         "def processDependent : List (String × String × String) := " + lean_list(
             ["(" + ", ".join(lean_str(x) for x in r) + ")" for r in pdep]) + "\n",
+        "def setIterations : List (String × String × String) := " + lean_list(
+            ["(" + ", ".join(lean_str(x) for x in r) + ")" for r in setit]) + "\n",
         "end Generated.FrontFacts\n",
     ])
     write_if_changed(GEN / "FrontFacts.lean", text)
-    return {"recursive": rec, "intro_facts": facts, "process_dependent": pdep, "converter_facts": conv}
+    return {"recursive": rec, "intro_facts": facts, "process_dependent": pdep, "converter_facts": conv, "set_iterations": setit}
 
 
 if __name__ == "__main__":
